@@ -107,7 +107,10 @@ func (e mwEngine) Gen(t *rapid.T, tier string) any {
 		for j := 0; j < ntags; j++ {
 			ev.Tags = append(ev.Tags, []string{"t", fmt.Sprintf("v%d", j)})
 		}
-		if e.prop == "C17" && rapid.IntRange(0, 2).Draw(t, "ptag") == 0 {
+		if e.prop == "C17" && rapid.IntRange(0, 5).Draw(t, "crossed") == 0 {
+			// the values the allow/deny filters ask for, under the other tag's name
+			ev.Tags = append(ev.Tags, []string{"t", ref.Authors[0].Pubkey}, []string{"p", "v0"})
+		} else if e.prop == "C17" && rapid.IntRange(0, 2).Draw(t, "ptag") == 0 {
 			pt := []string{"p", ref.Authors[rapid.IntRange(0, 1).Draw(t, "pwho")].Pubkey}
 			if rapid.IntRange(0, 1).Draw(t, "pfirst") == 0 {
 				ev.Tags = append([][]string{pt}, ev.Tags...) // tag order varies between events
@@ -223,6 +226,9 @@ func (e mwEngine) Gen(t *rapid.T, tier string) any {
 	subs := []string{}
 	for i := 0; i < quota+2; i++ {
 		subs = append(subs, fmt.Sprintf("%c", 'a'+i))
+	}
+	if rapid.IntRange(0, 4).Draw(t, "emptysub") == 0 {
+		subs[0] = "" // the empty string is a subscription id like any other
 	}
 	subs = append(subs, strings.Repeat("s", lim), strings.Repeat("s", lim+1))
 	mkFilters := func() []simrt.FilterSpec {
